@@ -2,6 +2,8 @@
   Props/C13.lean — interventions: do-surgery on the model and the algebra of parent adjustment.
 -/
 import PgmVerif.Props.C15
+import PgmVerif.Props.C02
+import PgmVerif.Proofs.VE
 import Mathlib.Tactic.FieldSimp
 import Mathlib.Algebra.Order.Field.Rat
 namespace PgmVerif
@@ -34,6 +36,128 @@ theorem C13_parents_adjustment (pyxz pxz pz c t s : Rat) (h1 : pyxz = c * t) (h2
     (h3 : pz = s) (hc : c ≠ 0) (hs : s ≠ 0) : pyxz / pxz * pz = t := by
   rw [h1, h2, h3]
   field_simp
+
+/-! ### parent adjustment = truncated factorisation, for every network -/
+
+/-- **parent adjustment is exact.**  A Bayesian network is given as  `after ++ [cx] ++ before`:
+    `cx` is the CPD of the intervened variable `x`; `after` lists the CPDs of `x`'s descendants,
+    children first (the hypotheses are exactly those of `C05_joint_mass_one`: normalised, a later
+    entry does not mention an earlier child, no child occurs in `cx` or `before`); `before` are the
+    CPDs of the non-descendants, none of which mentions `x`.  `Y` are the outcome variables, `Z` the
+    adjustment set, `O` all other variables, `W` those of `Y ++ O` that are not descendants.  With
+    J = joint and R = product of all CPDs except `cx` (the truncated factorisation), the adjustment
+    formula  Σ_z P(y | x, z) · P(z)  equals  Σ_{z, others} R — provided `cx` mentions only `x` and `Z`
+    (i.e. `Z ⊇ pa(x)`, nothing in `Y ++ O` occurs in it) and the conditionals are defined
+    (P(x | z) ≠ 0, P(z) ≠ 0). -/
+theorem C13_parent_adjustment_exact (K : Var → Nat) (x : Var) (cx : Factor)
+    (after : List (Var × Factor)) (before : List Factor) (Y Z O W : List Var)
+    (hYO : ∀ v ∈ Y ++ O, v ∉ cx.scope)
+    (hxnorm : ∀ a, Bounded K a → sumVar K x cx.den a = 1)
+    (hxbefore : ∀ f ∈ before, x ∉ f.scope)
+    (hnorm : ∀ p ∈ after, ∀ a, Bounded K a → sumVar K p.1 p.2.den a = 1)
+    (hfresh : ∀ p ∈ after, ∀ f ∈ cx :: before, p.1 ∉ f.scope)
+    (htopo : after.Pairwise (fun p q => p.1 ∉ q.2.scope))
+    (hperm : (Y ++ O).Perm (after.map (·.1) ++ W))
+    (hc : ∀ a, Bounded K a → cx.den a ≠ 0)
+    (hs : ∀ a, Bounded K a → sumOut K (Y ++ O) (jointDen (after.map (·.2) ++ before)) a ≠ 0)
+    (a : Asg) (ha : Bounded K a) :
+    sumOut K Z (fun b =>
+        sumOut K O (fun b' => cx.den b' * jointDen (after.map (·.2) ++ before) b') b
+          / sumOut K (Y ++ O) (fun b' => cx.den b' * jointDen (after.map (·.2) ++ before) b') b
+          * sumOut K (x :: (Y ++ O)) (fun b' => cx.den b' * jointDen (after.map (·.2) ++ before) b') b) a
+      = sumOut K (Z ++ O) (jointDen (after.map (·.2) ++ before)) a := by
+  set R := jointDen (after.map (·.2) ++ before) with hR
+  -- cx ignores Y, O and the descendants
+  have hcYO : IndepOf cx.den (Y ++ O) := fun b v y hv => den_upd_notin cx v (hYO v hv) b y
+  have hcO : IndepOf cx.den O := fun b v y hv => hcYO b v y (List.mem_append_right _ hv)
+  have hcA : IndepOf cx.den (after.map (·.1)) := by
+    intro b v y hv
+    obtain ⟨p, hp, rfl⟩ := List.mem_map.mp hv
+    exact den_upd_notin cx p.1 (hfresh p hp cx List.mem_cons_self) b y
+  have e1 : ∀ b, sumOut K O (fun b' => cx.den b' * R b') b = cx.den b * sumOut K O R b :=
+    fun b => sumOut_mul_const K O cx.den R hcO b
+  have e2 : ∀ b, sumOut K (Y ++ O) (fun b' => cx.den b' * R b') b = cx.den b * sumOut K (Y ++ O) R b :=
+    fun b => sumOut_mul_const K (Y ++ O) cx.den R hcYO b
+  -- summing the descendants out of R leaves the product of the non-descendants' CPDs
+  have hleaves : EqB K (sumOut K (after.map (·.1)) R) (jointDen before) := by
+    intro b hb
+    exact leaves_sum_out K before after hnorm
+      (fun p hp f hf => hfresh p hp f (List.mem_cons_of_mem _ hf)) htopo b hb
+  -- P(z) = Σ_{y, others} R : the marginal of the non-descendants is not changed by the intervention
+  have e3 : EqB K (sumOut K (x :: (Y ++ O)) (fun b' => cx.den b' * R b')) (sumOut K (Y ++ O) R) := by
+    intro b hb
+    have p1 : (x :: (Y ++ O)).Perm (after.map (·.1) ++ x :: W) :=
+      (List.Perm.cons x hperm).trans List.perm_middle.symm
+    rw [sumOut_perm K p1, sumOut_perm K hperm, sumOut_append, sumOut_append]
+    simp only [sumOut]
+    apply sumOut_congr W _ b hb
+    intro b1 hb1
+    have hJ : sumOut K (after.map (·.1)) (fun b' => cx.den b' * R b')
+        = fun b' => cx.den b' * sumOut K (after.map (·.1)) R b' :=
+      funext (fun b' => sumOut_mul_const K _ cx.den R hcA b')
+    rw [hJ]
+    have hstep : EqB K (fun b' => cx.den b' * sumOut K (after.map (·.1)) R b')
+        (fun b' => jointDen before b' * cx.den b') := by
+      intro b2 hb2
+      show cx.den b2 * sumOut K (after.map (·.1)) R b2 = jointDen before b2 * cx.den b2
+      rw [hleaves b2 hb2]; ring
+    rw [sumVar_congr x hstep b1 hb1,
+      sumVar_mul_const K x (jointDen before) cx.den (fun b' y => jointDen_upd_notin x before hxbefore b' y) b1,
+      hxnorm b1 hb1, mul_one, hleaves b1 hb1]
+  -- the adjustment term is the truncated-factorisation term, pointwise
+  have hpt : EqB K (fun b =>
+        sumOut K O (fun b' => cx.den b' * R b') b / sumOut K (Y ++ O) (fun b' => cx.den b' * R b') b
+          * sumOut K (x :: (Y ++ O)) (fun b' => cx.den b' * R b') b) (sumOut K O R) := by
+    intro b hb
+    show sumOut K O (fun b' => cx.den b' * R b') b / sumOut K (Y ++ O) (fun b' => cx.den b' * R b') b
+          * sumOut K (x :: (Y ++ O)) (fun b' => cx.den b' * R b') b = sumOut K O R b
+    rw [e1 b, e2 b, e3 b hb]
+    have h1 := hc b hb
+    have h2 := hs b hb
+    field_simp
+  rw [sumOut_congr Z hpt a ha, ← sumOut_append, sumOut_perm K (List.perm_append_comm)]
+
+/-! non-vacuity: the network Z → X (Z = variable 0, X = variable 1), intervention on X, adjustment
+    set {Z}: every hypothesis of `C13_parent_adjustment_exact` holds -/
+def nvPz : Factor := Factor.mk [0] [2] #[1/2, 1/2]
+def nvPxz : Factor := Factor.mk [1, 0] [2, 2] #[1/4, 3/4, 3/4, 1/4]
+
+theorem nvPz_ne (a : Asg) (ha : Bounded (fun _ => 2) a) : nvPz.den a ≠ 0 := by
+  have h0 : a 0 < 2 := ha 0
+  simp only [nvPz, Factor.den, List.map, ravel]
+  have : a 0 = 0 ∨ a 0 = 1 := by omega
+  rcases this with e | e <;> simp [e]
+
+theorem nvPxz_ne (a : Asg) (ha : Bounded (fun _ => 2) a) : nvPxz.den a ≠ 0 := by
+  have h0 : a 0 < 2 := ha 0
+  have h1 : a 1 < 2 := ha 1
+  simp only [nvPxz, Factor.den, List.map, ravel]
+  have : a 0 = 0 ∨ a 0 = 1 := by omega
+  have : a 1 = 0 ∨ a 1 = 1 := by omega
+  rcases ‹a 0 = 0 ∨ a 0 = 1› with e | e <;> rcases ‹a 1 = 0 ∨ a 1 = 1› with e' | e' <;> simp [e, e']
+
+theorem nvPxz_norm (a : Asg) (ha : Bounded (fun _ => 2) a) : sumVar (fun _ => 2) 1 nvPxz.den a = 1 := by
+  have h0 : a 0 < 2 := ha 0
+  have : a 0 = 0 ∨ a 0 = 1 := by omega
+  simp only [sumVar, nvPxz, Factor.den, List.map, ravel, List.range_succ, List.range_zero, Factor.upd]
+  rcases this with e | e <;> simp [e, Factor.upd] <;> norm_num
+
+example (a : Asg) (ha : Bounded (fun _ => 2) a) :
+    sumOut (fun _ => 2) [0] (fun b =>
+        sumOut (fun _ => 2) [] (fun b' => nvPxz.den b' * jointDen ([] ++ [nvPz]) b') b
+          / sumOut (fun _ => 2) ([] ++ []) (fun b' => nvPxz.den b' * jointDen ([] ++ [nvPz]) b') b
+          * sumOut (fun _ => 2) (1 :: ([] ++ [])) (fun b' => nvPxz.den b' * jointDen ([] ++ [nvPz]) b') b) a
+      = sumOut (fun _ => 2) ([0] ++ []) (jointDen ([] ++ [nvPz])) a :=
+  C13_parent_adjustment_exact (fun _ => 2) 1 nvPxz [] [nvPz] [] [0] [] []
+    (fun v hv => by cases hv) nvPxz_norm
+    (fun f hf => by rw [List.mem_singleton.mp hf]; decide)
+    (fun p hp => by cases hp) (fun p hp => by cases hp) List.Pairwise.nil (List.Perm.refl _)
+    nvPxz_ne
+    (fun b hb => by
+      show jointDen ([] ++ [nvPz]) b ≠ 0
+      rw [List.nil_append, jointDen_cons, jointDen_nil, mul_one]
+      exact nvPz_ne b hb)
+    a ha
 
 example : BNState.init.Inv := ⟨fun e he => (by cases he), acyclic_nil⟩
 
